@@ -17,6 +17,7 @@ def write_files(d, files):
         if t is None:
             os.makedirs(os.path.join(d, p), exist_ok=True)
         else:
+            os.makedirs(os.path.dirname(os.path.join(d, p)), exist_ok=True)
             with open(os.path.join(d, p), "w", encoding="utf-8", newline="") as fh:
                 fh.write(t)
 
